@@ -66,12 +66,18 @@ def subject_of(chain):
     return subs.pop() if len(subs) == 1 else None
 
 
-def eval_test(test, origin, subject, is_none):
+def eval_test(test, origin, subject, is_none, flags=None):
     """(value, guard kinds) of an if-chain test for a field of container kind `origin` whose value is (not) None.
-    value is True / False / None (unknown).  and / or / not are evaluated structurally."""
+    value is True / False / None (unknown).  and / or / not are evaluated structurally; `flags` are boolean locals
+    ({name: (value, guard kinds)}) set earlier on the path."""
     guards = []
 
     def ev(c):
+        if flags and isinstance(c, ast.Name) and c.id in flags:
+            guards.extend(flags[c.id][1])
+            return flags[c.id][0]
+        if isinstance(c, ast.Constant) and isinstance(c.value, bool):
+            return c.value
         if isinstance(c, ast.BoolOp):
             vals = [ev(v) for v in c.values]
             if isinstance(c.op, ast.And):
@@ -109,7 +115,12 @@ def eval_test(test, origin, subject, is_none):
 
 def select(chain, origin, subject, is_none=False):
     """(branch body, guard kinds, test node) selected for `origin`; body is the else suite when no test is true;
-    (None, ..) when a test cannot be evaluated"""
+    (None, ..) when a test cannot be evaluated.  For a Region the 'body' is the request itself, evaluated by branch_term."""
+    if isinstance(chain, Region):
+        t, guards = region_term(chain, origin, "_toJsonBasic" if "toJson" in chain.fi.name else "_fromJsonBasic",
+                                "obj[field]" if "toJson" in chain.fi.name else "setattr", is_none)
+        body = ("REGION", chain, origin, is_none)
+        return body, guards, (chain.stmts[0] if guards else None)
     node = chain
     while True:
         v, guards = eval_test(node.test, origin, subject, is_none)
@@ -141,6 +152,8 @@ class Interp(object):
             return ("none",)
         if isinstance(e, ast.List) and not e.elts:
             return ("lb", [])
+        if isinstance(e, ast.BinOp) and isinstance(e.op, ast.Mult) and {norm(e.left), norm(e.right)} == {"[None]", "len(args)"}:
+            return ("pb", [])          # [None] * len(args): one slot per type argument, filled by index
         if isinstance(e, ast.Dict) and not e.keys:
             return ("db", [])
         if isinstance(e, ast.Call):
@@ -254,6 +267,11 @@ class Interp(object):
                 if isinstance(tg, ast.Subscript) and norm(tg) == self.sink:
                     self.results.append(self.fin(self.ev(st.value, env)))
                     continue
+                if isinstance(tg, ast.Subscript) and isinstance(tg.value, ast.Name) and env.get(tg.value.id, ("",))[0] == "pb":
+                    if self.ev(tg.slice, env) != ("loopidx",):
+                        raise Unsupported(norm(st))
+                    env[tg.value.id][1].append((loop, conds, self.ev(st.value, env)))
+                    continue
                 if isinstance(tg, ast.Subscript) and isinstance(tg.value, ast.Name) and env.get(tg.value.id, ("",))[0] == "db":
                     env[tg.value.id][1].append((loop, conds, self.ev(tg.slice, env), self.ev(st.value, env)))
                     continue
@@ -306,6 +324,13 @@ class Interp(object):
             if not items:
                 return ("emptylist",)
             return ("?", "list built by %d appends" % len(items))
+        if t[0] == "pb":
+            items = t[1]
+            if len(items) == 1 and items[0][0] == "args" and items[0][1] == (True,):
+                return ("poslist", items[0][2], ("none",))
+            if len(items) == 1 and items[0][0] == "args" and items[0][1] == ():
+                return ("poslist", items[0][2], "unpadded")
+            return ("?", "pre-filled list with %d stores" % len(items))
         if t[0] == "db":
             items = t[1]
             if len(items) == 1 and items[0][0] == "items" and items[0][1] == ():
@@ -314,6 +339,83 @@ class Interp(object):
                 return ("emptydict",)
             return ("?", "dict built by %d stores" % len(items))
         return t
+
+
+class Region(object):
+    """the statements of the per-field container dispatch when it is not one if-chain: from the first `if` on `origin` to the
+    end of the field's iteration (flag-setting chains, a second chain on the flag, one store of the result at the end)"""
+
+    def __init__(self, fi, stmts, subject):
+        self.fi, self.stmts, self.subject = fi, stmts, subject
+
+
+def find_region(fi):
+    chain = find_chain(fi)
+    if chain is None:
+        return None
+    stmts = []
+    node = chain
+    while node is not None and not isinstance(node, (ast.For, ast.FunctionDef)):
+        parent = getattr(node, "_parent", None)
+        for f in ("body", "orelse"):
+            blk = getattr(parent, f, None)
+            if isinstance(blk, list) and any(x is node for x in blk):
+                i = [k for k, x in enumerate(blk) if x is node][0]
+                stmts += blk[i:] if node is chain else blk[i + 1:]
+        node = parent
+    subs = set()
+    for st in stmts:
+        for c in ast.walk(st):
+            if isinstance(c, ast.Call) and norm(c.func) == "isinstance" and len(c.args) == 2:
+                subs.add(norm(c.args[0]))
+    if len(subs) != 1:
+        return None
+    return Region(fi, stmts, subs.pop())
+
+
+class _Stop(Exception):
+    pass
+
+
+def region_term(region, origin, helper, sink, is_none=False):
+    """(term stored for the field, guard kinds evaluated on the way) for a field of container kind `origin`"""
+    it = Interp(region.subject, helper, sink)
+    flags = {}
+    guards = []
+
+    def boolish(e):
+        return isinstance(e, (ast.Compare, ast.BoolOp)) or (isinstance(e, ast.UnaryOp) and isinstance(e.op, ast.Not)) \
+            or (isinstance(e, ast.Call) and norm(e.func) == "isinstance") or (isinstance(e, ast.Constant) and isinstance(e.value, bool))
+
+    def top(stmts, env):
+        for st in stmts:
+            if isinstance(st, ast.If):
+                v, g = eval_test(st.test, origin, region.subject, is_none, flags)
+                guards.extend(g)
+                if v is None:
+                    raise Unsupported("test %s" % norm(st.test))
+                top(st.body if v else st.orelse, env)
+                continue
+            if isinstance(st, ast.Assign) and len(st.targets) == 1 and isinstance(st.targets[0], ast.Name) and boolish(st.value):
+                v, g = eval_test(st.value, origin, region.subject, is_none, flags)
+                flags[st.targets[0].id] = (v, g)
+                continue
+            if isinstance(st, ast.Raise):
+                it.results.append(("raise", norm(st.exc.func) if isinstance(st.exc, ast.Call) else norm(st.exc) if st.exc else ""))
+                raise _Stop()
+            if isinstance(st, ast.Continue):
+                raise _Stop()
+            it.run([st], env)
+    try:
+        try:
+            top(region.stmts, {})
+        except _Stop:
+            pass
+    except Unsupported as e:
+        return ("?", "unsupported: %s" % e), guards
+    if len(it.results) != 1:
+        return ("?", "%d stores of the field" % len(it.results)), guards
+    return it.results[0], guards
 
 
 def show(t):
@@ -328,6 +430,8 @@ def show(t):
 
 def branch_term(fi, body, subject, helper, sink):
     """the term stored for the field by a branch body, or ('?', reason)"""
+    if isinstance(body, tuple) and body and body[0] == "REGION":
+        return region_term(body[1], body[2], helper, sink, body[3])[0]
     it = Interp(subject, helper, sink)
     try:
         it.run(body, {})
